@@ -351,19 +351,43 @@ func (e *Engine) callSymbolic(st *State, fr *Frame, name string, fnv Val, args [
 	k(st, fr, res)
 }
 
-// appendLog records a callback invocation. The log is kept per callback as
-// a ghost sequence: explicit entries after the last havoc, plus a symbolic
-// prefix length and prefix contents array.
+// getLog returns the ghost call log of a callback (empty at function entry).
+func (e *Engine) getLog(st *State, name string, args []Val) *CallLog {
+	if l, ok := st.logs[name]; ok {
+		return l
+	}
+	l := &CallLog{Len: IntLit(0)}
+	for ai, a := range args {
+		var arrs []Term
+		for li, lf := range e.lay.Leaves(a.T) {
+			arrs = append(arrs, e.ctx.Const(fmt.Sprintf("log_%s_%d_%d_0", sanitize(name), ai, li), ArrSort(SInt, lf.Sort)))
+		}
+		l.Args = append(l.Args, arrs)
+		l.ArgT = append(l.ArgT, a.T)
+	}
+	st.logs[name] = l
+	return l
+}
+
+// appendLog records a callback invocation in its ghost sequence.
 func (e *Engine) appendLog(st *State, name string, args []Val, res Val) {
-	st.logs[name] = append(st.logs[name], CallLogEntry{Args: args, Res: []Val{res}})
+	l := e.getLog(st, name, args)
+	nl := &CallLog{Len: e.nameTerm(st, "loglen", Add(l.Len, IntLit(1))), ArgT: l.ArgT}
+	for ai, a := range args {
+		var arrs []Term
+		for li := range a.L {
+			arrs = append(arrs, e.nameTerm(st, "log_"+name, Store(l.Args[ai][li], l.Len, a.L[li])))
+		}
+		nl.Args = append(nl.Args, arrs)
+	}
+	st.logs[name] = nl
 }
 
 func (e *Engine) logLen(st *State, name string) Term {
-	base := IntLit(0)
-	if l, ok := st.logLen[name]; ok {
-		base = l
+	if l, ok := st.logs[name]; ok {
+		return l.Len
 	}
-	return Add(base, IntLit(int64(len(st.logs[name]))))
+	return IntLit(0)
 }
 
 // ---------------------------------------------------------------------------
